@@ -105,10 +105,8 @@ Proof.
     assert (Htr : trail (c :: r ++ 61 :: coded) = None).
     { unfold trail. rewrite span_stop by assumption. replace (c =? 59) with false by lia. reflexivity. }
     rewrite Hvg, Htr, Hk.
-    replace (match acc with [] => None | _ :: _ => None end)
-      with (@None (str * option str * str)) by (destruct acc; reflexivity).
     rewrite IH; [|exact Hr | left; discriminate | exact Hv].
-    simpl. now rewrite <- app_assoc.
+    destruct acc; cbn [rev]; rewrite <- app_assoc; reflexivity.
 Qed.
 
 Lemma match_cookie_pair name v :
@@ -134,13 +132,12 @@ Lemma parse_pair name v :
   parse_cookies (name ++ 61 :: quote v) = PCookies [(name, unquote (quote v))].
 Proof.
   intros [Hl [Hr Hd]]. unfold parse_cookies.
-  destruct (name ++ 61 :: quote v) as [|h0 t0] eqn:E; [destruct name; discriminate|].
-  rewrite <- E. cbn [parse_loop]. rewrite E at 1. rewrite <- E.
+  remember (name ++ 61 :: quote v) as hdr eqn:E.
+  destruct hdr as [|h0 t0]; [destruct name; discriminate|].
+  cbn [length parse_loop]. rewrite E.
   rewrite match_cookie_pair by assumption.
   replace (hd 0 name =? 36) with false by lia.
-  rewrite Hr. cbn [negb].
-  assert (L1 : length (name ++ 61 :: quote v) = S (length t0)) by now rewrite E.
-  rewrite L1. cbn [parse_loop rev app apply_items].
+  rewrite Hr. cbn [negb parse_loop rev app apply_items].
   rewrite Hr, Hl. reflexivity.
 Qed.
 
